@@ -11,7 +11,16 @@ Structural clauses decided:
  R4 array fields          every field a solver passes to Solution is an array expression of the row-list (np.array(list), slices of
                           one state array, arrays allocated with the number of time instants), so per-instant indexing is total
  R6 step count            the iterable of the time-step loop of every fixed-step solver (resolved through tqdm, locals and self
-                          attributes) depends on all of t0, t1 and dt; an np.arange grid has them in (start, stop, step) position
+                          attributes) depends on all of t0, t1 and dt: time_grid(t0, t1, dt)[:-1] (one iteration per step) or the
+                          stored grid[1:]
+ R7 stored rows           (K11) row k of every stored field still is what was stored at instant k: no stored row shares memory with a
+                          buffer that is modified in place afterwards
+ R8 equal row counts      static Newton: every field of a returned Solution (early truncated return, final return, also through a
+                          helper method) has the same number of rows
+ R9 robust step count     no float-step np.arange and no ceil of a bare quotient by dt decides where a time grid ends (numpy documents
+                          the length of a float-step arange as ceil of a floating-point quotient, which rounds across the integer for
+                          final times that are decimal multiples of the step - the case C20's quantifier names); the shared helper
+                          time_grid rounds `quotient - tolerance` and builds the grid from an integer arange; every fixed-step solver uses it
  R5 wrappers              ScipyIVP allocates its post-processed fields with nt = len(t) rows and fills row i in a loop over
                           zip(t, q, u); ScipyDAE transposes every field of sol.y / sol.yp
 """
@@ -24,9 +33,8 @@ from ..cfg import CFG
 
 EXPLANATION = ("CFG dominance / must-pass-through analysis of the append statements of every output list, structural checks "
                "of list initialisation, grid/loop pairing and of the array expressions handed to Solution.")
-NOT_DECIDED = ("the floating-point end of np.arange grids (value fact: the two idioms arange(t0, t1, dt)+append and "
-               "arange(t0, t1 + dt, dt) are only listed), field widths, the dill round trip; Newton.solve's final return mixes "
-               "self.load_steps with [: i + 1] (equal only for the loop-exit value of i, not analysed).")
+NOT_DECIDED = ("that the tolerance 1e-9 in time_grid is the right one for every (t0, t1, dt) (a value fact; R9 decides the idiom, not the "
+               "arithmetic), field widths, the dill round trip.")
 ASSUMPTIONS = ["Solution stores the arrays it is given without reshaping"]
 BLIND_SPOTS = ["SolutionIterator.__next__ can reach `return result` with result unbound after its bare except (not reachable with array fields)"]
 
@@ -181,6 +189,21 @@ def r6_step_count(ctx):
             rep.bad("C20.R6", C, it, f"the number of time steps ({norm_src(it)[:80]}) does not depend on {', '.join(missing)}: the grid cannot end at the first point at or after t1 "
                     f"for every initial time, final time and step", f"{rel}:{loop.lineno}")
             continue
+        if isinstance(it, ast.Call) and (dotted(it.func) or "").split(".")[-1] == "time_grid":
+            # shared helper: time_grid(t0, t1, dt) = the grid from t0 to the first point at or after t1 (n + 1 points).
+            # counting idiom iterates grid[:-1] (n steps), grid idiom iterates grid[1:] and stores the grid as time field.
+            pos = [_leaves(a, fn, cls) for a in it.args]
+            okp = len(it.args) == 3 and "t0" in pos[0] and "t1" not in pos[0] and pos[1] == {"t1"} and pos[2] == {"dt"}
+            raw = _strip_tqdm(loop.iter, fn, cls)
+            sl = norm_src(raw.slice) if isinstance(raw, ast.Subscript) else None
+            if not okp:
+                rep.bad("C20.R6", C, it, "time_grid must be called with (initial time, final time, step)", f"{rel}:{loop.lineno}")
+            elif sl in (":-1", "1:"):
+                rep.ok("C20.R6", C, f"step loop over {norm_src(raw)}: one iteration per step of the grid from t0 to the first point at or after t1")
+            else:
+                rep.bad("C20.R6", C, raw, f"the step loop iterates `{norm_src(raw)[:80]}`: the grid has one point more than there are steps, so iterating it whole (or another slice) "
+                        "takes a step beyond the first grid point at or after t1 (or stops before it)", f"{rel}:{loop.lineno}")
+            continue
         if isinstance(it, ast.Call) and (dotted(it.func) or "").split(".")[-1] == "arange":
             if len(it.args) != 3:
                 rep.bad("C20.R6", C, it, "np.arange grid without explicit (start, stop, step)", f"{rel}:{loop.lineno}")
@@ -207,11 +230,69 @@ def r6_step_count(ctx):
             exprs = _closure(it, fn, cls)
             span = any(isinstance(b, ast.BinOp) and isinstance(b.op, ast.Sub) and "t1" in _leaves(b.left, fn, cls) and "t0" in _leaves(b.right, fn, cls)
                        for e in exprs for b in ast.walk(e)) or \
-                any(isinstance(c, ast.Call) and (dotted(c.func) or "").split(".")[-1] in ("linspace", "arange") for e in exprs for c in ast.walk(e))
+                any(isinstance(c, ast.Call) and (dotted(c.func) or "").split(".")[-1] in ("linspace", "arange", "time_grid") for e in exprs for c in ast.walk(e))
             if span:
                 rep.ok("C20.R6", C, f"step loop over {norm_src(it)[:100]}: depends on t0, t1, dt through the span t1 - t0")
             else:
                 rep.bad("C20.R6", C, it, "the step count mentions t0, t1 and dt but not the span t1 - t0 (nor a grid from t0 to t1)", f"{rel}:{loop.lineno}")
+
+
+def robust_step_count(ctx):
+    """C20 quantifies over final times that are multiples of the step in decimal but not in binary.  numpy documents that the length of
+    np.arange(start, stop, step) with a non-integer step is ceil((stop - start) / step) evaluated in floating point, which lands on
+    either side of such a multiple (0.3 / 0.1 < 3, 1.1 / 0.1 > 11): a grid or step count taken from it ends one step late for some of
+    these inputs.  Rule: in cardillo/solver no np.arange with the step dt (and no ceil of a bare quotient by dt) determines a time
+    grid; the shared helper rounds `quotient - tolerance` and builds the grid from an INTEGER arange."""
+    rep = ctx.rep
+    n = 0
+    for rel, mod in sorted(ctx.repo.modules.items()):
+        if not rel.startswith("cardillo/solver/"):
+            continue
+        for q, fn in mod.defs().items():
+            if not isinstance(fn, ast.FunctionDef):
+                continue
+            C = f"{rel}:{q}"
+            for w in walk_no_nested(fn):
+                if not isinstance(w, ast.Call):
+                    continue
+                last = (dotted(w.func) or "").split(".")[-1]
+                if last == "arange" and len(w.args) == 3 and any(isinstance(x, (ast.Name, ast.Attribute)) and (dotted(x) or "").split(".")[-1] == "dt" for x in ast.walk(w.args[2])):
+                    n += 1
+                    rep.bad("C20.R9", C, w, f"`{norm_src(w)}`: the length of a float-step np.arange is ceil((stop - start) / step) in floating point; for final times that are a decimal "
+                            "multiple of the step the quotient can round across the integer (t1 = 0.2 or 1.1 with dt = 0.1), and the grid then ends one step after the first point "
+                            "at or after t1", f"{rel}:{w.lineno}")
+                if last == "ceil" and w.args:
+                    a = w.args[0]
+                    quot = [b for b in ast.walk(a) if isinstance(b, ast.BinOp) and isinstance(b.op, ast.Div)
+                            and any((dotted(x) or "").split(".")[-1] == "dt" for x in ast.walk(b.right) if isinstance(x, (ast.Name, ast.Attribute)))]
+                    if not quot:
+                        continue
+                    n += 1
+                    tol = isinstance(a, ast.BinOp) and isinstance(a.op, ast.Sub) and isinstance(a.right, ast.Constant) and isinstance(a.right.value, float) and 0 < a.right.value < 1e-3
+                    if tol:
+                        rep.ok("C20.R9", C, f"{norm_src(w)}: quotient rounded up after subtracting the tolerance {a.right.value}")
+                    else:
+                        rep.bad("C20.R9", C, w, f"`{norm_src(w)}` rounds a bare floating-point quotient by the step up: for a final time that is a decimal multiple of the step the "
+                                "quotient can exceed the integer by one unit in the last place, which adds a step", f"{rel}:{w.lineno}")
+    # the helper builds the grid from an integer arange
+    tg = ctx.repo.maybe("cardillo/solver/_base.py", "time_grid")
+    if tg is None:
+        raise AnalysisError("cardillo/solver/_base.py:time_grid vanished")
+    ret = [r.value for r in ast.walk(tg) if isinstance(r, ast.Return) and r.value is not None]
+    ar = [w for r in ret for w in ast.walk(r) if isinstance(w, ast.Call) and (dotted(w.func) or "").split(".")[-1] == "arange"]
+    n += 1
+    if ret and ar and all(len(w.args) == 1 for w in ar) and "t0" in norm_src(ret[0]) and "dt" in norm_src(ret[0]):
+        rep.ok("C20.R9", "cardillo/solver/_base.py:time_grid", f"grid = {norm_src(ret[0])}: integer arange scaled by dt, shifted by t0")
+    else:
+        rep.bad("C20.R9", "cardillo/solver/_base.py:time_grid", ret[0] if ret else tg.name, "the grid is not t0 + dt * np.arange(n + 1) with an integer count", f"cardillo/solver/_base.py:{tg.lineno}")
+    for rel, cname in TIME_SOLVERS + [("cardillo/solver/scipy_ivp.py", "ScipyIVP"), ("cardillo/solver/scipy_dae.py", "ScipyDAE")]:
+        cls = ctx.repo.get(rel, cname)
+        uses = [w for w in ast.walk(cls) if isinstance(w, ast.Call) and (dotted(w.func) or "").split(".")[-1] == "time_grid"]
+        n += 1
+        if uses:
+            rep.ok("C20.R9", f"{rel}:{cname}", f"time grid / step count from {norm_src(uses[0])}")
+        else:
+            rep.bad("C20.R9", f"{rel}:{cname}", cname, "the solver does not take its time grid from the shared helper time_grid(t0, t1, dt)", f"{rel}:{cls.lineno}")
 
 
 def newton_row_counts(ctx):
@@ -269,6 +350,8 @@ def run(ctx):
     rep.rule("C20.R4", "Solution fields are array expressions of the row lists", 40)
     rep.rule("C20.R5", "ScipyIVP / ScipyDAE field shapes", 8)
     rep.rule("C20.R6", "the step loop's iterable is a function of the initial time, the final time and the step", 4)
+    rep.rule("C20.R9", "the number of steps is rounded with a tolerance: no float-step np.arange / bare ceil of a float quotient decides where a time grid ends", 7)
+    robust_step_count(ctx)
     rep.rule("C20.R8", "static Newton: all fields of a returned Solution have the same number of rows (early, truncated return and final return)", 2)
     newton_row_counts(ctx)
     rep.rule("C20.R7", "row k of every stored field still is what was stored at instant k (K11 may-alias analysis)", 8)
@@ -383,7 +466,7 @@ def run(ctx):
     grid = [n for n in ast.walk(mo) if isinstance(n, ast.Assign) and any(norm_src(t) == "self.t" for t in n.targets)]
     loops = [n for n in ast.walk(mo) if isinstance(n, ast.For) and "self.t[1:]" in (norm_src(n.iter) + " " + " ".join(norm_src(v) for v in _loop_iter_defs(mo, n)))]
     tfield = "t=np.array(self.t)" in src
-    if grid and norm_src(grid[0].value).startswith("np.arange(t0,") and loops and tfield:
+    if grid and isinstance(grid[0].value, ast.Call) and norm_src(grid[0].value).startswith(("np.arange(t0,", "time_grid(t0,")) and loops and tfield:
         rep.ok("C20.R3", C, f"grid {norm_src(grid[0].value)} ; loop over self.t[1:] ; t=np.array(self.t)")
     else:
         rep.bad("C20.R3", C, grid[0] if grid else "self.t = np.arange(t0, ...)", "Moreau's pre-computed grid is not paired with a loop over self.t[1:] and t=np.array(self.t)",
@@ -467,13 +550,19 @@ MUTANTS = [
 ]
 MUTANTS += [
     dict(id="c20-r6-seed", canary=True, what="[seeded by sub-agent] Rattle: step count int(ceil(t1 / dt)) forgets the initial time", file=RT,
-         old="        pbar = tqdm(np.arange(self.t0, self.t1, self.dt))", new="        n_steps = int(np.ceil(self.t1 / self.dt))\n        pbar = tqdm(range(n_steps))", expect="C20.R6"),
+         old="        pbar = tqdm(time_grid(self.t0, self.t1, self.dt)[:-1])", new="        n_steps = int(np.ceil(self.t1 / self.dt))\n        pbar = tqdm(range(n_steps))", expect="C20.R6"),
     dict(id="c20-r6-2", what="BackwardEuler: grid starts at 0 instead of t0", file="cardillo/solver/backward_euler.py",
-         old="        pbar = tqdm(np.arange(self.t0, self.t1, self.dt))", new="        pbar = tqdm(np.arange(0, self.t1, self.dt))", expect="C20.R6"),
+         old="        pbar = tqdm(time_grid(self.t0, self.t1, self.dt)[:-1])", new="        pbar = tqdm(time_grid(0, self.t1, self.dt)[:-1])", expect="C20.R6"),
     dict(id="c20-r6-3", what="Moreau: pre-computed grid stops before t1", file="cardillo/solver/moreau.py",
-         old="        self.t = np.arange(t0, self.t1 + self.dt, self.dt)", new="        self.t = np.arange(t0, self.t1, self.dt)", expect="C20.R6"),
+         old="        self.t = time_grid(t0, self.t1, self.dt)", new="        self.t = time_grid(t0, self.t1, self.dt)[:-1]", expect=["C20.R6", "C20.R3"]),
     dict(id="c20-r6-4", what="DualStormerVerlet: one step too many", file="cardillo/solver/dual_stormer_verlet.py",
-         old="        self.pbar = tqdm(np.arange(self.t0, self.t1, self.dt))", new="        self.pbar = tqdm(np.arange(self.t0, self.t1 + self.dt, self.dt))", expect="C20.R6"),
+         old="        self.pbar = tqdm(time_grid(self.t0, self.t1, self.dt)[:-1])", new="        self.pbar = tqdm(time_grid(self.t0, self.t1, self.dt))", expect="C20.R6"),
+    dict(id="c20-r9-orig", canary=True, what="Rattle counts its steps with a float-step np.arange (original defect: one step too many for t0 = 0.1, t1 = 0.4, dt = 0.1)", file=RT,
+         old="        pbar = tqdm(time_grid(self.t0, self.t1, self.dt)[:-1])", new="        pbar = tqdm(np.arange(self.t0, self.t1, self.dt))", expect="C20.R9"),
+    dict(id="c20-r9-2", what="Moreau's grid from np.arange(t0, t1 + dt, dt) (original defect: ends at 0.3 for t1 = 0.2, dt = 0.1)", file="cardillo/solver/moreau.py",
+         old="        self.t = time_grid(t0, self.t1, self.dt)", new="        self.t = np.arange(t0, self.t1 + self.dt, self.dt)", expect="C20.R9"),
+    dict(id="c20-r9-3", what="time_grid rounds the bare quotient", file="cardillo/solver/_base.py",
+         old="    n_steps = max(1, int(np.ceil((t1 - t0) / dt - 1e-9)))", new="    n_steps = max(1, int(np.ceil((t1 - t0) / dt)))", expect="C20.R9"),
 ]
 MUTANTS += [
     dict(id="c20-r8-seed", canary=True, what="[seeded by sub-agent] Newton: truncated return keeps the full-length velocity field", file="cardillo/solver/statics.py",
@@ -481,5 +570,5 @@ MUTANTS += [
 ]
 NEUTRAL = [
     dict(id="c20-n1", canary=True, what="Rattle: step count from the span (t1 - t0) / dt", file=RT,
-         old="        pbar = tqdm(np.arange(self.t0, self.t1, self.dt))", new="        n_steps = int(np.ceil((self.t1 - self.t0) / self.dt))\n        pbar = tqdm(range(n_steps))"),
+         old="        pbar = tqdm(time_grid(self.t0, self.t1, self.dt)[:-1])", new="        n_steps = len(time_grid(self.t0, self.t1, self.dt)) - 1\n        pbar = tqdm(range(n_steps))"),
 ]
